@@ -453,6 +453,20 @@ pub proof fn lemma_joined_push(head: Seq<Tok>, sep: Seq<Tok>, items: Seq<Seq<Tok
     }
 }
 
+/// attributes printed one after the other, in order
+pub open spec fn attrs_toks(attrs: Seq<syn::Attribute>) -> Seq<Tok>
+    decreases attrs.len()
+{
+    if attrs.len() == 0 { Seq::<Tok>::empty() } else { attrs_toks(attrs.drop_last()) + tk(&attrs.last()) }
+}
+pub proof fn lemma_attrs_toks_take(attrs: Seq<syn::Attribute>, i: int)
+    requires 0 <= i < attrs.len()
+    ensures attrs_toks(attrs.take(i + 1)) == attrs_toks(attrs.take(i)) + tk(&attrs[i])
+{
+    assert(attrs.take(i + 1).drop_last() =~= attrs.take(i));
+    assert(attrs.take(i + 1).last() == attrs[i]);
+}
+
 /// `open x1 sep x2 ... close`, nothing at all for an empty list (the Punctuator discipline)
 pub open spec fn delimited(open: Seq<Tok>, sep: Seq<Tok>, close: Seq<Tok>, items: Seq<Seq<Tok>>) -> Seq<Tok> {
     if items.len() == 0 { Seq::<Tok>::empty() } else { joined(open, sep, items) + close }
